@@ -127,6 +127,11 @@ EMB = {e.name: e for e in [
     Emb("m8s", "timedelta64[s]", base=10 ** 9),
     Emb("M8ms", "datetime64[ms]", base=10 ** 12),
     Emb("m8us", "timedelta64[us]", base=10 ** 15),
+    # narrow signed integers AT THE BOTTOM of their range: abstract 1 is the dtype's lowest value (-128, -32768, -2^31), which is
+    # a value like any other for these dtypes (only int64 / temporal data have an in-band null); selection-type operations only
+    Emb("i8lo", "int8", base=-129),
+    Emb("i16lo", "int16", base=-32769),
+    Emb("i32lo", "int32", base=-2 ** 31 - 1),
 ]}
 
 
